@@ -320,9 +320,52 @@ def r5(ctx, facts):
     r.instance("fallback:down-groups-present", n_down >= 1, "fallback() must still append the enabled-but-down nodes as a last resort", fb.span, nontrivial=False)
 
 
+def r6(ctx, facts):
+    r = ctx.rule("R6", "datacenter failover is possible exactly when a datacenter is preferred and the policy permits failover", floor=2)
+    b = facts.one(r"^%s::is_datacenter_failover_possible$" % DP)
+    dj = dj_of(b, facts)
+    df = df_of(b, facts)
+    dc = [c for c in b.calls_to("Option::<T>::is_some") if any((x.name or "").endswith("NodeLocationPreference::datacenter") for x in backward_slice(b, c.args[0])[1])]
+    if len(dc) != 1:
+        raise AnchorLost("is_datacenter_failover_possible: `preference.datacenter().is_some()` not found (%d)" % len(dc))
+    DC = ("call", dc[0].bb)
+
+    def permit(stt):
+        for k, v in stt.items():
+            if k[0] == "val" and k[1][1][-1:] == ("permit_dc_failover",):
+                return 1 if in_set(v, {1}) else 0 if in_set(v, {0}) else None
+        return None
+    n, bad = 0, []
+    for bb in sorted(b.live_blocks):
+        for j, st in enumerate(b.stmts(bb)):
+            if not (st[0] == "A" and st[1] == [0, []]):
+                continue
+            n += 1
+            e = dj.expr_of_rvalue(st[2])
+            for stt in dj.states_before_stmt(bb, j):
+                d = 1 if in_set(stt.get(DC), {1}) else 0 if in_set(stt.get(DC), {0}) else None
+                p = permit(stt)
+                v = dj.eval_in(stt, e) if e is not None else None
+                if v == 0:
+                    ok = d == 0 or p == 0
+                elif v == 1:
+                    ok = d == 1 and p == 1
+                elif e is not None and e[0] == "val" and e[1][1][-1:] == ("permit_dc_failover",):
+                    ok = d == 1
+                elif e == DC:
+                    ok = p == 1
+                else:
+                    ok = False
+                if not ok:
+                    bad.append("returns %s with datacenter-preferred=%s permit_dc_failover=%s" % (df.fmt_expr(e) if e else b.fmt_rv(st[2]), d, p))
+    r.instance("result-is-preferred-and-permitted", n > 0 and not bad,
+               "is_datacenter_failover_possible must be `preference.datacenter().is_some() && self.permit_dc_failover` and nothing else (a further condition silently removes every remote node from the plans it applies to): %s" % sorted(set(bad))[:3], b.span)
+    r.instance("result-sites", n > 0, "%d return sites" % n, b.span, nontrivial=False)
+
+
 def check(ctx):
     facts = inline_view(ctx.facts("default"))
-    for fn in (r1, r2, r3, r4, r5):
+    for fn in (r1, r2, r3, r4, r5, r6):
         try:
             fn(ctx, facts)
         except AnchorLost as ex:
